@@ -169,11 +169,12 @@ fn hyphenation_primitive_fn<S: HasComponent<HyphenationComponent>>(
             }
         }
     }
+    // The words are separated by spaces and each of them is an exception (TeX.2021.935).
     input
         .state_mut()
         .component_mut()
         .hyphenator
-        .insert_exception(&s);
+        .insert_exceptions(&s);
     Ok(())
 }
 
